@@ -304,3 +304,36 @@ CHECKS['C16'].update(
          'hex digits are (b >> 4, b & 15) and decode to 16*hi + lo; the URL escape digits are the hex digits of (c >> 4, c & 15) and '
          'the two-digit helper returns 16*hi + lo for all digit pairs in either case.',
     technique=CHECKS['C16']['technique'] + '; exhaustive tabulation of closed-form codec expressions over byte/sextet/nibble domains')
+
+
+# ---- wave-5 extensions (second seeding round for C01 C11 C12 C13 C14 C15, refactor sets lists/parsers) -------------------
+CHECKS['C05'].update(
+    text=CHECKS['C05']['text'] + ' Added later: the match predicate of every lookup contains a string equality on the key (S2); S4 '
+         'insert-at-head protocol (the new node receives the old head before the slot is overwritten on every path on which the old '
+         'head can be non-NULL); S5 walk-cursor refresh (on every path that delivers an element through the caller\'s cursor, every '
+         'cursor field the function reads to resume is re-assigned); S6 clear detaches every chain it frees.')
+CHECKS['C11'].update(
+    text=CHECKS['C11']['text'] + ' Added later: M3 also rejects reading through a raw caller pointer while an owned payload field is '
+         'freed and not yet replaced (the caller\'s pointer may come from a non-copying get: copy first, release afterwards); I9 the '
+         'static hash table\'s constructor writes the region only when memsize >= sizeof(header) is known (the slot count comes from an '
+         'unsigned difference that wraps for smaller regions).')
+CHECKS['C07'].update(
+    text=CHECKS['C07']['text'] + ' I9: the constructor writes the region only under the must-fact memsize >= sizeof(header).')
+CHECKS['C12'].update(
+    text=CHECKS['C12']['text'] + ' R2-bin: binary payload fields (void *) are never duplicated with strdup/strndup (the copy would end '
+         'at the first NUL while the stored size is reported).')
+CHECKS['C13'].update(
+    text=CHECKS['C13']['text'] + ' Added later, all under B-guard: element bytes are not read through a local copy of a shared payload '
+         'pointer after the lock was released; the result of a non-copying accessor (copy flag passed as literal false) is not read '
+         'by library code at lock depth 0. B-recursive: the mutex of every container that exposes lock()/unlock() is created '
+         'recursive (the acquire macro force-releases a plain mutex held by the same thread).')
+CHECKS['C14'].update(
+    text=CHECKS['C14']['text'] + ' Static helpers whose lock effect is a function of their result (`returns the element with the lock '
+         'held, or NULL with the lock released`) get return-value-correlated summaries: callers are analysed path-sensitively on how '
+         'they branch on the result. A-recursive: containers that expose lock()/unlock() create a recursive mutex.')
+CHECKS['C15'].update(
+    text=CHECKS['C15']['text'] + ' A5: in the recursive restructuring functions of the tree no path from a recursive descent to a return '
+         'bypasses a way-up fix-up condition (an early return on the failure status would leave nodes split on the way down '
+         'unrepaired).')
+CHECKS['C01'].update(
+    text=CHECKS['C01']['text'] + ' T9: no return between a recursive descent and the way-up fix-ups.')
